@@ -126,14 +126,14 @@ def have_oracle(pid):
     return bool(oracle_modules(pid))
 
 
-def run_oracle(run, pid, why):
+def run_oracle(run, pid, why, short=False):
     """the property's bounded native oracle (statement-level test of the real code) - run at most once per check"""
     if run.oracle is not None:
         return run.oracle
     if not have_oracle(pid):
         run.oracle = {"missing": True, "why": why}
         return run.oracle
-    budget = float(os.environ.get("VERIF_ORACLE_S", "0") or 0) or (120.0 if run.tier == "thorough" else 25.0)
+    budget = float(os.environ.get("VERIF_ORACLE_S", "0") or 0) or (120.0 if run.tier == "thorough" else (12.0 if short else 25.0))
     mods = oracle_modules(pid)
     res = {"cases": 0, "failures": [], "bound": "", "halves": mods}
     for k, name in enumerate(mods):
@@ -301,11 +301,15 @@ def main(argv=None):
             if v["confirmed"] and not v.get("oracle") and fn_last.startswith("_") and not fn_last.startswith("__") and have_oracle(pid):
                 v["confirmed"], v["refuted"], v["helper_level"] = False, True, True
         unconfirmed = [v for v in run.violations if not v["confirmed"]]
-        if run.out_of_reach or run.undecided or (unconfirmed and not any(v["confirmed"] for v in run.violations)) or tier == "thorough":
+        needed = bool(run.out_of_reach or run.undecided or (unconfirmed and not any(v["confirmed"] for v in run.violations)))
+        if needed or tier == "thorough" or not run.violations:
+            # also next to a complete proof (short budget in the quick tier): the oracle is end-to-end, so it sees what a modular proof assumes
+            # about callees proved elsewhere (a defect in a dependency shows up here even when this check's own obligations all hold)
             why = ("sections out of reach: " + "; ".join("%s (%s)" % (x["section"], x["reason"][:120]) for x in run.out_of_reach)) if run.out_of_reach else \
                   ("%d obligations undecided by the solvers" % len(run.undecided)) if run.undecided else \
-                  ("failed obligations without a reproducing counter-model: search for a concrete failing input" if unconfirmed else "thorough tier")
-            run_oracle(run, pid, why)
+                  ("failed obligations without a reproducing counter-model: search for a concrete failing input" if unconfirmed else
+                   ("thorough tier" if tier == "thorough" else "complementary end-to-end exploration next to the proof"))
+            run_oracle(run, pid, why, short=not needed)
         # a failed obligation whose every counter-model was replayed on the real code and did NOT reproduce there, while the bounded native
         # oracle finds no failing input either, is an unestablished proof step (brittle contract / abstraction), not a violation:
         # the bounded stand-in decides this run and the evidence says so.  Failed obligations that could not be replayed stay violations.
